@@ -88,7 +88,7 @@ def rtype(r):
 
 
 class State:
-    __slots__ = ("obj", "limb", "written", "env", "alloc", "off", "flags", "views")
+    __slots__ = ("obj", "limb", "written", "env", "alloc", "off", "flags", "views", "wit")
 
     def __init__(self, obj=None, limb=None, written=None, env=None, alloc=None, off=None):
         self.obj = dict(obj or {})          # var id -> frozenset(regions)
@@ -99,11 +99,13 @@ class State:
         self.off = dict(off or {})          # limb pointer var id -> Term offset from the base of its (single) region
         self.flags = {}                     # boolean local -> parameter pairs that differ when the flag is false
         self.views = {}                     # local object region -> parameter regions whose limb block it borrows (PTR (t) = PTR (u))
+        self.wit = {}                       # integer var id -> frozenset of Terms it holds on SOME incoming path (witnesses; None = too many)
 
     def copy(self):
         s = State(self.obj, self.limb, {k: dict(v) for k, v in self.written.items()}, self.env, self.alloc, self.off)
         s.flags = dict(self.flags)
         s.views = dict(self.views)
+        s.wit = dict(self.wit)
         return s
 
     def join(self, o, where=0):
@@ -120,9 +122,32 @@ class State:
                 b = T(0, [(("v", k, 0), 1)])
             if a != b:
                 n = T(0, [(("phi", where, k), 1)])
+                # witnesses: the exact terms the variable has on the joined paths (asize = prec + 1 out of a clamp)
+                w = set()
+                for t_, owner in ((a, self), (b, o)):
+                    if any(s_[0] == "phi" for s_, _c in t_[1]):
+                        ow = owner.wit.get(k)
+                        if ow is None and k in owner.wit:
+                            w = None
+                            break
+                        w |= set(ow or ())
+                    else:
+                        w.add(t_)
+                if w is not None and len(w) > 4:
+                    w = None
+                w = frozenset(w) if w is not None else None
                 if se.get(k) != n:
                     se[k] = n
                     ch = True
+                if self.wit.get(k, "absent") != w:
+                    if not (k in self.wit and self.wit[k] is None):
+                        if w is not None and k in self.wit and self.wit[k] is not None:
+                            w = self.wit[k] | w
+                            if len(w) > 4:
+                                w = None
+                        if self.wit.get(k, "absent") != w:
+                            self.wit[k] = w
+                            ch = True
         for k in list(self.alloc):
             if k not in o.alloc or o.alloc[k][0] != self.alloc[k][0]:
                 del self.alloc[k]
@@ -449,6 +474,26 @@ class Analysis:
         E, eline = st.alloc[r]
         end = tadd(self.offset(ptr_expr, st), extra)
         d = tconst(tadd(end, E, -1)) if end is not None else None
+        if d is None and end is not None and self.fine and st.wit:
+            # the end depends on a variable that was joined: does one of the exact values it had on an incoming path overrun?
+            # symbols of `end` that ARE the current value of a variable with witnesses (a join symbol, or the fresh symbol of v = c ? a : b)
+            phis = []
+            for s_, c_ in end[1]:
+                vid_ = s_[2] if s_[0] == "phi" else (s_[1] if s_[0] == "v" else None)
+                if vid_ is not None and st.wit.get(vid_) and st.env.get(vid_) == T(0, [(s_, 1)]):
+                    phis.append(((s_, vid_), c_))
+            if len(phis) == 1:
+                ((sym, wvid), coef) = phis[0]
+                for t_ in sorted(st.wit[wvid], key=repr):
+                    e2 = tadd(tadd(end, T(0, [(sym, coef)]), -1), tscale(t_, coef))
+                    d2 = tconst(tadd(e2, E, -1))
+                    if d2 is not None and d2 > 0 and ("R-EXTENT", self.fn["name"], self.rname(r)) not in self.exceptions:
+                        self.stats.bump("extent_refuted", line)
+                        self.rep("R-EXTENT", line, "overrun-on-path:%s" % self.rname(r),
+                                 "%s at line %d writes %d limb%s past the size requested for %s at line %d on the path on which %s holds the value "
+                                 "it was given before the join (the bound itself: a clamp to the allocation followed by a store at that index)"
+                                 % (what, line, d2, "" if d2 == 1 else "s", self.rname(r), eline, self.var_name(wvid)))
+                        return
         if d is None:
             self.stats.bump("extent_undecided", line)
             if r[0] == "S" and end is not None:
@@ -467,6 +512,14 @@ class Analysis:
                      % (what, line, d, "" if d == 1 else "s", self.rname(r), eline,
                         "the scratch block holds exactly the limbs that were requested" if r[0] in ("T", "H") else
                         "the allocation is only known to hold what MPZ_REALLOC / the size test asked for"))
+
+    def var_name(self, vid):
+        if getattr(self, "_vnames", None) is None:
+            self._vnames = {}
+            for b in self.fn["blocks"]:
+                for el in b["elems"]:
+                    sa.walk(el["e"], lambda n: self._vnames.setdefault(n["id"], n.get("name", "?")) if n.get("k") == "var" else None)
+        return self._vnames.get(vid, "#%d" % vid)
 
     def abs_term(self, e, st):
         """|e| as a Term when e is  n,  -n,  or  (c ? n : -n)  with n a term that denotes a size"""
@@ -762,6 +815,7 @@ class Analysis:
                     st.off.pop(vid, None)
                 elif isint:
                     st.env[vid] = T(0, [(("v", vid, line), 1)])
+                    st.wit.pop(vid, None)
                 return
             st.obj.pop(vid, None)
             st.limb.pop(vid, None)
@@ -781,6 +835,12 @@ class Analysis:
                 while isinstance(r_, dict) and r_.get("k") == "cast":
                     r_ = r_["e"]
                 prec_of = None
+                prec_plus = 0
+                if isinstance(r_, dict) and r_.get("k") == "binop" and r_["op"] == "+" and isinstance(r_["r"], dict) and r_["r"].get("k") == "int":
+                    prec_plus = r_["r"]["v"]            # prec = PREC (r) + 1, "lie not to lose precision"
+                    r_ = r_["l"]
+                    while isinstance(r_, dict) and r_.get("k") == "cast":
+                        r_ = r_["e"]
                 if isinstance(r_, dict) and r_.get("k") == "member" and r_["field"] == "_mp_prec":
                     base_ = self.eval(r_["base"], st) if r_["arrow"] else ("obj", self.objlvalue(r_["base"], st))
                     if base_ and base_[0] == "obj" and base_[1] and len(base_[1]) == 1:
@@ -807,8 +867,18 @@ class Analysis:
                 # the variable's old value may appear in other terms: those keep their meaning because terms name
                 # values (symbols), not variables
                 st.env[vid] = t if t is not None else T(0, [(("v", vid, line), 1)])
+                st.wit.pop(vid, None)
+                if t is None and rhs is not None:
+                    # v = (c ? a : b)  (MIN / MAX / a clamp written as an expression): the value is one of the arms
+                    c_ = rhs
+                    while isinstance(c_, dict) and c_.get("k") in ("cast", "paren"):
+                        c_ = c_["e"]
+                    if isinstance(c_, dict) and c_.get("k") == "cond":
+                        arms = [self.term(c_["a"], st), self.term(c_["b"], st)]
+                        if all(a_ is not None for a_ in arms):
+                            st.wit[vid] = frozenset(arms)
                 if prec_of is not None:
-                    st.alloc[prec_of] = (tadd(st.env[vid], T(1)), line)
+                    st.alloc[prec_of] = (tadd(st.env[vid], T(1 - prec_plus)), line)
             return
         if k == "member":
             base = self.eval(lhs["base"], st) if lhs["arrow"] else ("obj", self.objlvalue(lhs["base"], st))
@@ -1046,6 +1116,7 @@ class Analysis:
                 if n["op"] in ("+=", "-=") and lv.get("k") == "var" and lv["id"] not in st.limb and "*" not in lv.get("ct", ""):
                     t = tadd(st.env.get(lv["id"], T(0, [(("v", lv["id"], 0), 1)])), self.term(n["r"], st), 1 if n["op"] == "+=" else -1)
                     st.env[lv["id"]] = t if t is not None else T(0, [(("v", lv["id"], line), 1)])
+                    st.wit.pop(lv["id"], None)
                 elif n["op"] in ("+=", "-=") and lv.get("k") == "var" and lv["id"] in st.limb and lv["id"] in st.off:
                     o = tadd(st.off[lv["id"]], self.term(n["r"], st), 1 if n["op"] == "+=" else -1)
                     self.assign(lv, None, st, ne, line, compound=True)
@@ -1073,6 +1144,8 @@ class Analysis:
                         st.off[vid] = tadd(st.off[vid], T(d))
                 elif "*" not in n["e"].get("ct", ""):
                     st.env[vid] = tadd(st.env.get(vid, T(0, [(("v", vid, 0), 1)])), T(d))
+                    if st.wit.get(vid):
+                        st.wit[vid] = frozenset(tadd(t_, T(d)) for t_ in st.wit[vid])
         before = len(self.seen_reports)
         sa.walk(e, f)
         if e.get("k") not in ("binop", "decl", "return") or (e.get("k") == "binop" and not e["op"].endswith("=") or e.get("op") in ("==", "!=", "<=", ">=")):
@@ -1242,6 +1315,23 @@ class Analysis:
                         if tv is not None and tv != (si == 0):
                             continue            # the edge contradicts exact integer terms (loop `j < n` with j = 2, n = 1)
                         st = st.copy()          # refinement is per edge
+                        if st.wit:
+                            for k_, ws in list(st.wit.items()):
+                                if not ws:
+                                    continue
+                                keep = set()
+                                saved = st.env.get(k_)
+                                for t_ in ws:
+                                    st.env[k_] = t_
+                                    tv2 = self.int_cond(cond, st)
+                                    if tv2 is None or tv2 == (si == 0):
+                                        keep.add(t_)
+                                if saved is None:
+                                    st.env.pop(k_, None)
+                                else:
+                                    st.env[k_] = saved
+                                if len(keep) != len(ws):
+                                    st.wit[k_] = frozenset(keep)
                         ne2 = self.refine(cond, si == 0, st, ne)
                     else:
                         ne2 = ne
